@@ -483,6 +483,49 @@ def direction_section(ctx, rng):
                     break
 
 
+def open_contour_section(ctx, rng):
+    """open contours (first point a 'move'): TrueType closes every contour, so an open path is filled and has a direction like any
+    other -- it is reversed with the closed ones, with and without the cubic conversion (convertCubics False / True give the
+    same glyf for outlines made of lines and quadratics), and with reverseDirection=False it keeps the source order"""
+    import ufo2ft
+    from fontTools.ttLib import TTFont
+    for i in range(ctx.budget(4, 16)):
+        lib = ["ufoLib2", "defcon"][i % 2]
+        d = 10 * i
+        closed = [(Fr(0), Fr(0), "line"), (Fr(400 + d), Fr(0), "line"), (Fr(400 + d), Fr(400), "line"), (Fr(0), Fr(400), "line")]
+        open_lines = [(Fr(100), Fr(100), "move"), (Fr(100), Fr(300 + d), "line"), (Fr(300), Fr(300 + d), "line"), (Fr(300), Fr(100), "line")]
+        open_quad = [(Fr(120), Fr(120), "move"), (Fr(150), Fr(320), "off"), (Fr(280), Fr(280 + d), "qcurve"), (Fr(290), Fr(130), "line")]
+        desc = {"glyphs": [{"name": "a", "unicodes": [0x61], "width": 500, "components": [], "anchors": [], "contours": [closed, open_lines]},
+                           {"name": "b", "unicodes": [0x62], "width": 500, "components": [], "anchors": [], "contours": [open_quad, closed]},
+                           {"name": "c", "unicodes": [0x63], "width": 500, "components": [], "anchors": [], "contours": [open_lines]}]}
+        case = {"font": jsonable(desc), "lib": lib, "level": "open contours"}
+        ctx.count(); ctx.klass("open contours"); ctx.nontriv(("open", i, ctx.scale))
+        try:
+            out = {}
+            for key, kw in (("default", {}), ("convertCubics=False", {"convertCubics": False}), ("reverseDirection=False", {"reverseDirection": False}),
+                            ("both off", {"convertCubics": False, "reverseDirection": False})):
+                tt = ufo2ft.compileTTF(build_font(desc, lib), useProductionNames=False, **kw)
+                buf = io.BytesIO(); tt.save(buf); buf.seek(0); tt = TTFont(buf)
+                out[key] = {g["name"]: read_glyf(tt, g["name"])["contours"] for g in desc["glyphs"]}
+        except Exception as e:
+            ctx.spec_failure(case, "compileTTF raised %s: %s\n%s" % (type(e).__name__, e, traceback.format_exc()[-1000:]))
+            continue
+        rot = lambda c: min(tuple(c[k:] + c[:k]) for k in range(len(c))) if c else ()
+        norm = lambda cs: [rot(list(c)) for c in cs]
+        for g in desc["glyphs"]:
+            n = g["name"]
+            src = [[(int(x), int(y), t != "off") for x, y, t in c] for c in g["contours"]]
+            if norm(out["reverseDirection=False"][n]) != norm(src) or norm(out["both off"][n]) != norm(src):
+                ctx.spec_failure(dict(case, glyph=n), "%r: with reverseDirection=False the contours (open ones included) are not in the source order" % n)
+                break
+            want = norm([list(reversed(c)) for c in src])
+            for key in ("default", "convertCubics=False"):
+                if norm(out[key][n]) != want:
+                    ctx.spec_failure(dict(case, glyph=n, options=key), "%r (%s): not every contour -- open ones included -- is the reversed source contour: %r" % (
+                        n, key, str(out[key][n])[:200]))
+                    break
+
+
 def notdef_section(ctx, rng):
     """a caller-supplied .notdef (the notdefGlyph option; the UFO has none of its own) is an outline like any other: in the
     TrueType font it must come out exactly as the same outline does when compiled as an ordinary glyph of that font
@@ -527,6 +570,7 @@ def explore(ctx):
     notdef_section(ctx, ctx.subrng("notdef"))
     tt_options_section(ctx, ctx.subrng("tt-options"))
     direction_section(ctx, ctx.subrng("direction"))
+    open_contour_section(ctx, ctx.subrng("open-contours"))
     import ufo2ft
     from fontTools.ttLib import TTFont
     from ufo2ft.preProcessor import TTFPreProcessor
